@@ -180,6 +180,36 @@ func c14GenR0() []byte {
 	return c14WriteZip(parts)
 }
 
+// c14ToStrict rewrites a library-written package to the ISO Strict namespace / relationship URLs, so that
+// namespaceStrictToTransitional (the tag-aware scanner) runs on every XML part when it is read.
+func c14ToStrict(b []byte) []byte {
+	parts, err := c14ZipParts(b)
+	must(err)
+	pairs := [][2]string{
+		{"http://schemas.openxmlformats.org/officeDocument/2006/relationships/officeDocument", "http://purl.oclc.org/ooxml/officeDocument/relationships/officeDocument"},
+		{"http://schemas.openxmlformats.org/officeDocument/2006/relationships/extended-properties", "http://purl.oclc.org/ooxml/officeDocument/relationships/extendedProperties"},
+		{"http://schemas.openxmlformats.org/officeDocument/2006/relationships/comments", "http://purl.oclc.org/ooxml/officeDocument/relationships/comments"},
+		{"http://schemas.openxmlformats.org/officeDocument/2006/relationships/image", "http://purl.oclc.org/ooxml/officeDocument/relationships/image"},
+		{"http://schemas.openxmlformats.org/officeDocument/2006/relationships/chart", "http://purl.oclc.org/ooxml/officeDocument/relationships/chart"},
+		{"http://schemas.openxmlformats.org/officeDocument/2006/relationships\"", "http://purl.oclc.org/ooxml/officeDocument/relationships\""},
+		{"http://schemas.openxmlformats.org/spreadsheetml/2006/main", "http://purl.oclc.org/ooxml/spreadsheetml/main"},
+		{"http://schemas.openxmlformats.org/drawingml/2006/main", "http://purl.oclc.org/ooxml/drawingml/main"},
+		{"http://schemas.openxmlformats.org/officeDocument/2006/extended-properties", "http://purl.oclc.org/ooxml/officeDocument/extendedProperties"},
+		{"http://schemas.openxmlformats.org/officeDocument/2006/docPropsVTypes", "http://purl.oclc.org/ooxml/officeDocument/docPropsVTypes"},
+	}
+	for i := range parts {
+		if !c14IsXML(parts[i].name) {
+			continue
+		}
+		t := string(parts[i].data)
+		for _, p := range pairs {
+			t = strings.ReplaceAll(t, p[0], p[1])
+		}
+		parts[i].data = []byte(t)
+	}
+	return c14WriteZip(parts)
+}
+
 func c14LoadCorpus() []*c14Fixture {
 	var fx []*c14Fixture
 	addPlain := func(name string, b []byte) {
@@ -190,6 +220,7 @@ func c14LoadCorpus() []*c14Fixture {
 	basic := c14GenBasic()
 	addPlain("gen-basic", basic)
 	addPlain("gen-r0", c14GenR0())
+	addPlain("gen-strict", c14ToStrict(basic))
 	for _, n := range []string{"Book1", "MergeCell", "SharedStrings", "CalcChain", "OverflowNumericCell", "BadWorkbook"} {
 		b, err := os.ReadFile(filepath.Join(c14RepoDir(), "test", n+".xlsx"))
 		must(err)
@@ -505,6 +536,16 @@ func c14Enumerate(fx []*c14Fixture, thorough bool) []*c14Mut {
 						}
 					}
 				}
+				if fix.name == "gen-strict" && c14IsXML(p.name) {
+					// the attribute region of the root element, byte by byte: flip the lowest bit, delete, a quote, '<'
+					if els, _ := c14ScanXML(p.data); len(els) > 0 && len(els[0].attrs) > 0 {
+						for off := els[0].attrs[0].s; off < els[0].se && off < len(p.data); off++ {
+							for v := 0; v < 4; v++ {
+								ms = append(ms, &c14Mut{fix: fix, level: "nsroot", part: p.name, kind: "nsbyte", a: off, val: v, path: els[0].path + "#attrs"})
+							}
+						}
+					}
+				}
 				for _, k := range []string{"prm", "pren-x", "pren-upper", "pren-bslash", "pren-slash", "pempty", "pjunk", "pdup", "pbom"} {
 					ms = append(ms, &c14Mut{fix: fix, level: "part", part: p.name, kind: k, path: "-"})
 				}
@@ -609,6 +650,26 @@ func c14Enumerate(fx []*c14Fixture, thorough bool) []*c14Mut {
 func c14Materialise(m *c14Mut) []byte {
 	fix := m.fix
 	switch m.level {
+	case "nsroot":
+		parts := make([]c14Part, len(fix.parts))
+		copy(parts, fix.parts)
+		for i := range parts {
+			if parts[i].name == m.part && m.a >= 0 && m.a < len(parts[i].data) {
+				d := append([]byte{}, parts[i].data...)
+				switch m.val % 4 {
+				case 0:
+					d[m.a] ^= 1
+				case 1:
+					d = append(d[:m.a], d[m.a+1:]...)
+				case 2:
+					d[m.a] = '"'
+				default:
+					d[m.a] = '<'
+				}
+				parts[i].data = d
+			}
+		}
+		return c14WriteZip(parts)
 	case "xml":
 		parts := make([]c14Part, len(fix.parts))
 		copy(parts, fix.parts)
